@@ -468,8 +468,16 @@ def local_memo_hazards(func):
         if isinstance(key, ast.Name):
             continue            # keyed by the whole element
         inside = set()
+        # a key that ends in an identifying attribute (`geobj.n`, `pulse.idx`, `w.tag`) stands for its object: the
+        # object itself (any receiver prefix of the key) may be used in the value
+        prefixes = {ktxt}
+        k_ = key
+        ident = isinstance(key, ast.Attribute) and key.attr in ('n', 'idx', 'tag', 'id', 'name', 'key', 'number')
+        while ident and isinstance(k_, ast.Attribute):
+            k_ = k_.value
+            prefixes.add(norm(k_))
         for x in ast.walk(st.value):
-            if norm(x) == ktxt if isinstance(x, ast.expr) else False:
+            if isinstance(x, ast.expr) and norm(x) in prefixes:
                 for y in ast.walk(x):
                     inside.add(id(y))
         loose = sorted({x.id for x in ast.walk(st.value) if isinstance(x, ast.Name) and x.id in knames and id(x) not in inside})
